@@ -722,6 +722,8 @@ def _side_env(fn: ast.AST) -> dict:
             for a, b in zip(t.elts, v.elts):
                 bind(a, b)
             return
+        if isinstance(v, (ast.Compare, ast.BoolOp)) or (isinstance(v, ast.UnaryOp) and isinstance(v.op, ast.Not)):
+            return  # a flag computed from a test (`auto = catalog2 is None`) is not data of that catalog
         sv = _side(v, env)
         for x in ast.walk(t):
             if isinstance(x, ast.Name) and not named(x.id) and sv and len(sv) == 1:
@@ -735,6 +737,11 @@ def _side_env(fn: ast.AST) -> dict:
             elif isinstance(x, ast.AnnAssign) and x.value is not None:
                 bind(x.target, x.value)
             elif isinstance(x, (ast.For, ast.comprehension)):
+                # (what a method call yields is not data of the catalogs named in its arguments: `for i, j in
+                # self.iter_patch_id_pairs(auto=auto)`)
+                it_ = x.iter
+                if isinstance(it_, ast.Call) and not (isinstance(it_.func, ast.Name) and it_.func.id in ("zip", "enumerate", "iter", "sorted", "reversed", "list", "tuple")):
+                    continue
                 bind(x.target, x.iter)
             elif isinstance(x, ast.NamedExpr):
                 bind(x.target, x.value)
